@@ -63,7 +63,7 @@ def obligations(tier):
     for ns in ((5, 257) if tier == 'quick' else (0, 5, 256, 257, 600)):
         add('pa.realloc_slab.new%d' % ns, 'h_pa_realloc_slab', 'pa_realloc', ['C02', 'C03', 'C04', 'C05'], unwind=8, replace=rep,
             defines=['RS_NEW=%d' % ns], bound='realloc of any block of any slab class to %d bytes; allocate/free replaced by their contracts' % ns)
-    for a_, n_ in (((0x200, 0x300),) if tier == 'quick' else ((0x200, 0x300), (0x100, 0x101), (0x400, 0x1000))):
+    for a_, n_ in (((0x200, 0x300),) if tier == 'quick' else ((0x200, 0x300), (0x100, 0x101))):
         add('pa.realloc_large_move.%x_%x' % (a_, n_), 'h_pa_realloc_large_move', 'pa_realloc', ['C01', 'C02', 'C03', 'C04', 'C05'], unwind=8, replace=rep,
             defines=['RL_AREA=%d' % a_, 'RL_NEW=%d' % n_], bound='realloc of a large block with a %#x-byte area to %#x bytes; allocate/free replaced by their contracts' % (a_, n_))
     add('pa.realloc_null', 'h_pa_realloc_null', 'pa_realloc', ['C02'], unwind=8, replace=rep)
@@ -73,7 +73,7 @@ def obligations(tier):
     # dispatch on large blocks with Policy::map succeeding (addresses stay concrete, which keeps these in the quick tier)
     # (free of a large block through the dispatcher and a moving realloc between large frames run out of memory even so; the first stays in the
     # thorough tier with the larger memory limit, the second is covered by pa.realloc_large_move with allocate/free replaced by their contracts)
-    pairs = ((300, 500), (700, 300)) if tier == 'quick' else ((300, 500), (300, 512), (700, 300), (257, 256))
+    pairs = ((300, 500), (700, 300)) if tier == 'quick' else ((300, 500), (300, 512), (700, 300))
     for o_, n_ in pairs:
         add('pa.realloc_large_ok.%d_%d' % (o_, n_), 'h_pa_realloc_large', 'pa_realloc', ['C01', 'C02', 'C03', 'C04', 'C05'], unwind=8,
             defines=['MAP_SUCCEEDS', 'RE_OLD=%d' % o_, 'RE_NEW=%d' % n_], bound='realloc of a large block of %d bytes to %d bytes; Policy::map succeeds' % (o_, n_), timeout=1500, cost=20)
